@@ -21,8 +21,8 @@ import (
 var valDomain = func() []string {
 	pk := func(v core.Value) string { return core.Pack(v.(core.Packable)) }
 	d := []string{"", pk(core.IntVal(0)), pk(core.IntVal(1)), pk(core.IntVal(2)),
-		pk(core.SuStr("a")), pk(core.SuStr("a\x00")), pk(core.SuStr("\x00")), pk(core.IntVal(3))}
-	for i := 4; i < 12; i++ {
+		pk(core.SuStr("a")), pk(core.SuStr("a\x00")), pk(core.SuStr("a\x00b")), pk(core.IntVal(3)), pk(core.SuStr("\x00"))}
+	for i := 4; i < 11; i++ {
 		d = append(d, pk(core.IntVal(i)))
 	}
 	d = append(d, pk(core.SuStr("b")), pk(core.SuStr("a\x00\x00")), pk(core.SuStr("a\x00\x01")), pk(core.IntVal(-1)))
